@@ -139,6 +139,8 @@ def units(tier, seed, nchunks=128, hist_depth=None, delim_in_prefix=False):
     # a small configuration set under unusual delimiters
     r0, r1, _ = record_pool()
     small = [[r] for r in r0 if "a" not in r.prefix] + [[a, b] for a, b in it.combinations([r for r in r0 if r.prefix in ("", "x") and r.uri_prefix in ("x", "x:", "xy", "a:", "a:x")], 2) if Model([a, b]).valid()]
+    # nested URI prefixes of which one is a synonym (so that standardisation is observable), across two records and inside one
+    small += [[mrec("x", "X", [], ["a:x"]), mrec("", "a:")], [mrec("x", "a:", [], ["y"]), mrec("", "X", [], ["a:x"])], [mrec("x", "a:", [], ["a:x"])], [mrec("x", "a:x", [], ["a:"])]]
     out.append({"tier": tier, "cfgs": [recs_to_json(c) for c in small], "delims": EXOTIC_DELIMS, "qlen": 2})
     if delim_in_prefix:
         out.append({"tier": tier, "cfgs": [recs_to_json(c) for c in dip_configs()], "delims": DELIMS})
